@@ -49,14 +49,26 @@ def match_known(prop, clause, culprit, known):
     return None
 
 
-def probe_pdaniell(replaying=False):
-    """Fixed probe (sim/probes.py): pdaniell's frequencies() against its psd.  Returns 0, 1 or 2."""
+PROBE_INFO = {}
+
+
+def probe_pdaniell(replaying=False, quiet=False):
+    """Fixed probe (sim/probes.py): pdaniell's frequencies() against its psd.  Returns 0, 1 or 2; what it saw
+    is left in PROBE_INFO for the evidence file.  quiet: decide only, print later (second call)."""
     from sim import probes
     engine.ensure_ctx({})
     bad = engine.in_pristine_child(probes.pdaniell_freq_len)
     if isinstance(bad, dict):
         print("HARNESS-ERROR: pdaniell probe: " + bad.get("fatal", "?")[-800:])
+        PROBE_INFO["pdaniell_freq_len"] = {"outcome": "harness-error"}
         return 2
+    PROBE_INFO["pdaniell_freq_len"] = {
+        "cases": [list(c) for c in probes.CASES], "failing_cases": bad,
+        "outcome": "held" if not bad else "fails (listed as known finding pdaniell-freq-len)" if any(
+            k.get("status") == "known" and k.get("id") == "pdaniell-freq-len" for k in load_known()) else "VIOLATION",
+        "ran": "real code (spectrum.pdaniell) in a pristine forked child, after the seeded batch"}
+    if quiet:
+        return 0 if not bad else (0 if "known" in PROBE_INFO["pdaniell_freq_len"]["outcome"] else 1)
     if not bad:
         if replaying:
             print("replay: no violation (pdaniell: len(frequencies()) == len(psd) in all probe cases)")
@@ -272,7 +284,9 @@ def cmd_check(mname, args):
     new = [r for r in reports if r["confirmed"] and not r["known"]]
     knownhits = [r for r in reports if r["confirmed"] and r["known"]]
     unconfirmed = [r for r in reports if not r["confirmed"]]
-    ev.write(mname, m, tier, seed, workers, batch, st, reports, wall, t_batch, complete, plan)
+    if m.PROPERTY == "C07":
+        probe_pdaniell(quiet=True)
+    ev.write(mname, m, tier, seed, workers, batch, st, reports, wall, t_batch, complete, plan, probes=PROBE_INFO)
     for r in knownhits:
         print("KNOWN-FINDING: property=%s %s" % (m.PROPERTY, r["known"].get("what_fails", r["detail"])))
     rc = 0
